@@ -89,6 +89,7 @@ def _run_unit(unit: Unit) -> dict:
             "functions": ex.functions, "paths": ex.paths, "normal_paths": ex.normal_paths,
             "solver_ms": round(ex.solver_ms, 1), "wall_s": round(time.time() - t0, 2),
             "error": err, "error_kind": kind, "bounded": unit.bounded,
+            "extra": getattr(ex, "extra", None),
             "assumptions": sorted(ex.assumptions)}
 
 
@@ -340,6 +341,21 @@ if __name__ == "__main__":
                              "error": (r["error"] or "")[-300:]} for r in results
                             if r["error"]][:20],
         }
+        # bounded stand-ins report what they ran: cases, distinct non-trivial cases, samples
+        st = [r.get("extra") or {} for r in results if r.get("extra")]
+        if st:
+            cov["standin_cases_run"] = sum(int(x.get("evaluations", 0)) for x in st)
+            cov["standin_distinct_nontrivial"] = sum(int(x.get("distinct_nontrivial", 0))
+                                                     for x in st)
+            cov["standin_samples"] = [y for x in st for y in x.get("samples", [])][:8]
+            if any(x.get("rule") for x in st):
+                cov["standin_rule"] = next(x["rule"] for x in st if x.get("rule"))
+        if self.level == "exploration" and st:
+            cov["evaluations"] = cov["standin_cases_run"]
+            cov["distinct_nontrivial"] = cov["standin_distinct_nontrivial"]
+            cov["samples"] = cov["standin_samples"] or cov["samples"]
+            cov["rule"] = cov.get("standin_rule", cov["rule"])
+            cov["exhaustive"] = all(bool(x.get("exhaustive")) for x in st)
         cov.update(self.extra)
         ev = {"property_id": self.prop, "tier": self.tier, "seed": self.seed,
               "level": self.level, "coverage": cov, "assumptions": self.assumptions,
